@@ -720,6 +720,39 @@ def lemma_WofN_map():
     )
 
 
+def lemma_GVC():
+    """counting lemmas for get_violated_conditional (contracts/c_gvc.py): UCount >= 0, UCount and KCount are monotone in
+    the bound (inductions on the upper bound), and a flat stretch of KCount has zero contributions (from monotonicity)"""
+    from contracts import c_gvc as G
+
+    cl = z3.Const("cl_g", LLInt.sort)
+    m = z3.Const("m_g", LInt.sort)
+    ks = z3.Const("ks_g", LInt.sort)
+    v = z3.Const("v_g", G.ValS)
+    ig = z3.Const("ig_g", LInt.sort)
+    a, n, p = z3.Ints("a_g n_g p_g")
+    U = lambda k: G.UCount(cl, m, k)
+    K = lambda k: G.KCount(ks, v, ig, m, k)
+    names = ["lemma.UCount.nonneg", "lemma.UCount.mono", "lemma.KCount.mono", "lemma.KCount.flat"]
+    r1 = _prove("lemma.UCount.nonneg", [("base n<=0", [n <= 0], U(n) >= 0, []), ("step", [n >= 0, U(n) >= 0], U(n + 1) >= 0, [])], exclude=names, extra_axioms=G.HITBY_DEF)
+    mono_u = lambda k: z3.Implies(a <= k, U(a) <= U(k))
+    r2 = _prove("lemma.UCount.mono", [("base n=a", [0 <= a, n == a], mono_u(n), []), ("step", [0 <= a, n >= 0, mono_u(n)], mono_u(n + 1), [])], exclude=names, extra_axioms=G.HITBY_DEF)
+    mono_k = lambda k: z3.Implies(a <= k, K(a) <= K(k))
+    nonneg = G.GVC_LEMMAS[0]
+    r3 = _prove("lemma.KCount.mono", [("base n=a", [0 <= a, n == a], mono_k(n), []), ("step", [0 <= a, n >= 0, mono_k(n)], mono_k(n + 1), [])], exclude=names, extra_axioms=G.HITBY_DEF + [nonneg])
+    N = LInt.len(ks)
+    r4 = _prove(
+        "lemma.KCount.flat",
+        [("flat", [0 <= a, a <= p, p < N, K(a) == K(N)], G.contrib(ks, v, ig, m, p) == 0, [K(p), K(p + 1)])],
+        exclude=names,
+        extra_axioms=G.HITBY_DEF + [nonneg, G.GVC_LEMMAS[2]],
+    )
+    parts = r1["parts"] + r2["parts"] + r3["parts"] + r4["parts"]
+    sts = [r["status"] for r in (r1, r2, r3, r4)]
+    st = "proved" if all(x == "proved" for x in sts) else ("failed" if "failed" in sts else "undecided")
+    return {"name": "GVC counting lemmas (UCount.nonneg, UCount.mono, KCount.mono, KCount.flat)", "status": st, "parts": parts, "seconds": sum(r["seconds"] for r in (r1, r2, r3, r4))}
+
+
 def lemma_mem_at():
     mem, memw = L.mem_theory(L.Int)
     l = z3.Const("l_mat", LInt.sort)
@@ -742,6 +775,7 @@ LEMMAS = {
     "MargAny.step": lambda: lemma_step("MargAny"),
     "LitsOK.step": lambda: lemma_step("LitsOK"),
     "WofN.map": lemma_WofN_map,
+    "GVC.count": lemma_GVC,
     "CnfHolds.snoc": lemma_CnfHolds_snoc,
     "MCS.bridge": lemma_MCS_bridge,
     "MCS.bridge2": lemma_MCS_bridge2,
